@@ -137,7 +137,7 @@ fn bcast_list_list_nm(op: BinaryOp, n: usize, m: usize) {
 }
 
 macro_rules! bcast_harness {
-    ($name:ident, $contract:ident, $op:expr) => {
+    ($name:ident, $group:ident) => {
         #[kani::proof]
         #[kani::unwind(4)]
         #[kani::stub(alloc::fmt::format, crate::verif_common::fmt_stub)]
@@ -147,7 +147,7 @@ macro_rules! bcast_harness {
         #[kani::stub(crate::functions::FunctionDef::call, no_call)]
         #[kani::stub(crate::values::Value::stringify_internal, stringify_stub)]
         fn $name() {
-            $contract($op);
+            $group();
         }
     };
 }
